@@ -504,3 +504,243 @@ Proof.
   vm_compute. eexists _, _, _. split; [reflexivity|]. split; [reflexivity|discriminate].
 Qed.
 Print Assumptions C12_lax_lookup_refuted.
+
+(** * Round 5: white-space edits, file names, the hash chain (M-EDIT, Exec/EditModel.v)
+
+    [C12_refuse] and its store-level forms quantify over arbitrary byte-string
+    statements, and the hash input of the model is the exact statement text
+    ([ExecModel.sums]: [HS (acc ++ s)], nothing trimmed, nothing added): an edit
+    that changes only white space *inside the scanned text* of an applied
+    statement is an edit like any other.  What follows states that explicitly,
+    and puts three things the earlier rounds left outside into the model:
+    the file name ([LocalFile.Version] / [Desc]), the "h1:" text of a stored
+    partial hash, and the shape of the hash chain. *)
+From Atlas Require Import Exec.EditModel Exec.EditProofs.
+
+Section C12_round5.
+Variable hash : Type.
+Variable hash_eqb : hash -> hash -> bool.
+Variable HS : bytes -> hash.
+Hypothesis hash_eqb_spec : forall a b, hash_eqb a b = true <-> a = b.
+
+(** A white-space edit of a statement: another byte string with the same
+    non-blank bytes (blank, tab, LF, CR removed). *)
+Definition whitespace_edit (s s' : bytes) : Prop := s <> s' /\ strip_ws s = strip_ws s'.
+
+(** 20. Statement [j] of the applied part was re-spaced (a double blank in a
+    literal became single, a line break became a blank, re-indentation, tabs
+    for blanks, CRLF for LF, blanks before the delimiter ...): over the store
+    and under every fault stream, nothing is executed, the table is what it
+    was, the run is neither Done nor a panic; without a storage fault it is
+    HistoryChanged -- or a collision of [HS] is exhibited.  ([refused_st] is
+    the conclusion of theorem 5 plus [o <> SExec OPanic].) *)
+Theorem C12_whitespace_edit_refused :
+  forall (t : list (rev hash)) (fs : list bool) (f : file) (r : rev hash) (old : list bytes)
+         (j : nat) (s s' : bytes),
+  tbl_get t (f_version f) = Some r -> recorded hash HS r old ->
+  j < r_applied r ->
+  nth_error old j = Some s -> nth_error (f_stmts f) j = Some s' ->
+  whitespace_edit s s' ->
+  forall o t' fs' es, execute_st hash hash_eqb HS f t fs = (o, t', fs', es) ->
+  collision_at hash HS old (f_stmts f) (r_applied r) \/
+  refused_st hash t fs (r_applied r) o t' es.
+Proof.
+  intros t fs f r old j s s' Hget Hrec Hj Ho Hn [Hne _].
+  exact (whitespace_edit_refused hash hash_eqb HS hash_eqb_spec t fs f r old j s s' Hget Hrec Hj Ho Hn Hne).
+Qed.
+
+(** 21. What a file name means ([LocalFile.Version] / [LocalFile.Desc]): a name
+    "<v>.sql" (what `atlas migrate new` writes without a name) has version [v]
+    and an empty description; "<v>_<d>.sql" has version [v] and description [d]
+    for EVERY byte string [d] (further underscores, "h1:", blanks, quotes,
+    formatting verbs, any length); [v] is any byte string without '_'. *)
+Theorem C12_name_shapes :
+  forall (v d : bytes), ~ In 95%N v ->
+  version_of_name (v ++ dot_sql) = v /\ desc_of_name (v ++ dot_sql) = [] /\
+  version_of_name (v ++ 95%N :: d ++ dot_sql) = v /\ desc_of_name (v ++ 95%N :: d ++ dot_sql) = d.
+Proof.
+  intros v d Hv. split; [exact (version_of_name_plain v Hv)|].
+  split; [exact (desc_of_name_plain v Hv dot_sql_no_under)|].
+  split; [exact (version_of_name_desc v d Hv)|exact (desc_of_name_desc v d Hv)].
+Qed.
+
+(** 22. The refusal for a file of ANY name: the revision is found by the
+    version extracted from the name; whatever the name is, an edited applied
+    part is refused cleanly (never Done, never a panic). *)
+Theorem C12_named_refuse :
+  forall (name : bytes) (stmts : list bytes) (ck : bool)
+         (t : list (rev hash)) (fs : list bool) (r : rev hash) (old : list bytes),
+  tbl_get t (version_of_name name) = Some r ->
+  0 < r_applied r -> recorded hash HS r old ->
+  firstn (r_applied r) stmts <> firstn (r_applied r) old ->
+  forall o t' fs' es,
+  execute_st hash hash_eqb HS (file_of (mkNFile name stmts ck)) t fs = (o, t', fs', es) ->
+  collision_at hash HS old stmts (r_applied r) \/ refused_st hash t fs (r_applied r) o t' es.
+Proof.
+  intros name stmts ck t fs r old Hget Hk Hrec Hdiff.
+  exact (refuse_st_refused hash hash_eqb HS hash_eqb_spec t fs (file_of (mkNFile name stmts ck)) r old Hget Hk Hrec Hdiff).
+Qed.
+
+(** 23. The outcome does not depend on the file name beyond version
+    extraction: two names with the same version give the same [Execute]
+    (outcome, table, faults consumed, events), and the same history of whole
+    `migrate apply` commands wherever the file stands in the directory. *)
+Theorem C12_refusal_independent_of_name :
+  forall (n1 n2 : bytes) (stmts : list bytes) (ck : bool),
+  version_of_name n1 = version_of_name n2 ->
+  (forall t fs,
+     execute_st hash hash_eqb HS (file_of (mkNFile n1 stmts ck)) t fs =
+     execute_st hash hash_eqb HS (file_of (mkNFile n2 stmts ck)) t fs) /\
+  (forall txfile order pre post faults rs t,
+     ncli_history hash hash_eqb HS (mkNCliRun txfile order (pre ++ mkNFile n1 stmts ck :: post) faults :: rs) t =
+     ncli_history hash hash_eqb HS (mkNCliRun txfile order (pre ++ mkNFile n2 stmts ck :: post) faults :: rs) t).
+Proof.
+  intros n1 n2 stmts ck Hv. split.
+  - intros t fs. rewrite (file_of_same_version n1 n2 stmts ck Hv). reflexivity.
+  - intros txfile order pre post faults rs t. unfold ncli_history. cbn [map]. unfold cli_run_of at 1 3.
+    cbn [ncr_txfile ncr_order ncr_dir ncr_faults]. rewrite !map_app. cbn [map].
+    rewrite (file_of_same_version n1 n2 stmts ck Hv). reflexivity.
+Qed.
+
+(** 24. The hash chain: [sums] has one entry per statement, and entry [i] is
+    [HS] of the texts of statements 0..i concatenated -- the texts alone, in
+    order, without separator (Go: one running sha256 state, [h.Write(stmt.Text)],
+    [sums[i] = base64(h.Sum(nil))]).  The tie compares the raw values with
+    Go's on every history of stages api / wsapi / wscli. *)
+Theorem C12_partial_hash_chain :
+  forall (ss : list bytes),
+  length (sums hash HS ss) = length ss /\
+  forall i, i < length ss -> nth_error (sums hash HS ss) i = Some (HS (concat (firstn (S i) ss))).
+Proof. exact (sums_chain hash HS). Qed.
+
+(** 26. [Revision.Hash] (the whole-file hash of atlas.sum): [Execute] stores it
+    when it creates a revision and never compares it; this tree has no
+    checkRevisionHash.  A completely applied file ([Applied = Total]) is not
+    returned by [Pending] whatever its statements are now: `migrate apply` on a
+    directory whose only file is completely applied answers "nothing to do",
+    executes nothing and leaves the table alone -- for EVERY content [stmts'] of
+    the file.  (So C12's refusal is about partially applied files only; an edit
+    of a completely applied file is not detected at apply time.  Stage wsapi
+    replays it: the 4th run of every history restores the old content.) *)
+Theorem C12_completed_file_edit_not_detected :
+  forall (txfile : bool) (c : PendingModel.cfg) (n : nat) (v : bytes) (stmts' : list bytes) (r : rev hash),
+  r_version r = v -> r_applied r = r_total r ->
+  cli_apply hash hash_eqb HS txfile c n [mkFile v stmts' false] [r] [] =
+    (CPend PendingModel.PNoPending, [r], [], [], []).
+Proof.
+  intros txfile c n v stmts' r Hv Hd.
+  exact (completed_file_not_checked hash hash_eqb HS txfile c n (mkFile v stmts' false) r eq_refl Hv Hd).
+Qed.
+
+(** 27. = 20 without a premise on the stored hashes: the table was reached by
+    any history of attempts on the file under arbitrary storage/statement
+    faults, interleaved with tail-only edits ([file_history], theorems 15/16);
+    then statement [j] of the part applied so far is re-spaced: refused under
+    every fault stream, HistoryChanged when no storage call fails. *)
+Theorem C12_whitespace_edit_refused_end_to_end :
+  forall (f f_new : file) (t : list (rev hash)) (r : rev hash) (j : nat) (s s' : bytes),
+  file_history hash hash_eqb HS f t -> f_version f_new = f_version f ->
+  tbl_get t (f_version f) = Some r -> r_applied r <> r_total r ->
+  j < r_applied r ->
+  nth_error (f_stmts f) j = Some s -> nth_error (f_stmts f_new) j = Some s' ->
+  whitespace_edit s s' ->
+  forall fs o t' fs' es, execute_st hash hash_eqb HS f_new t fs = (o, t', fs', es) ->
+  collision_at hash HS (f_stmts f) (f_stmts f_new) (r_applied r) \/
+  (exec_events es = [] /\ t' = t /\ o <> SExec ODone /\
+   (hd false fs = false -> hd false (tl fs) = false ->
+      exists i, o = SExec (OHistory i) /\ 1 <= i <= r_applied r)).
+Proof.
+  intros f f_new t r j s s' HH Hv Hget Hpart Hj Ho Hn [Hne _].
+  apply (C12_history_refuse_lemma hash hash_eqb HS hash_eqb_spec f f_new t r HH Hv Hget); [|exact Hpart|].
+  - destruct (r_applied r); [inversion Hj|apply Nat.lt_0_succ].
+  - exact (firstn_differs (f_stmts f) (f_stmts f_new) (r_applied r) j s s' Hj Ho Hn Hne).
+Qed.
+
+End C12_round5.
+
+(** 25. The stored text of a partial hash is "h1:" + sum and the comparison is
+    [sums[i] != strings.TrimPrefix(stored, "h1:")]: on stored texts this is
+    equality of the sums, so the instance of the abstract pair ([HS],
+    [hash_eqb]) the tie runs -- [hs_stored raw], [stored_eqb] -- satisfies the
+    premise [hash_eqb_spec] of every theorem above, for every [raw]. *)
+Theorem C12_h1_prefix_transparent :
+  forall (a b : bytes),
+  sum_eqb_stored a (stored_hash b) = bytes_eqb a b /\
+  (stored_eqb (stored_hash a) (stored_hash b) = true <-> stored_hash a = stored_hash b) /\
+  trim_prefix (stored_hash a) h1_prefix = a.
+Proof.
+  intros a b. split; [exact (sum_eqb_stored_hash a b)|]. split; [exact (stored_eqb_spec a b)|].
+  exact (trim_prefix_app h1_prefix a).
+Qed.
+
+Print Assumptions C12_whitespace_edit_refused.
+Print Assumptions C12_name_shapes.
+Print Assumptions C12_named_refuse.
+Print Assumptions C12_refusal_independent_of_name.
+Print Assumptions C12_partial_hash_chain.
+Print Assumptions C12_h1_prefix_transparent.
+Print Assumptions C12_completed_file_edit_not_detected.
+Print Assumptions C12_whitespace_edit_refused_end_to_end.
+
+(** Non-vacuity (round 5).  [ws_old]: VALUES ('a  b') / X / Y, two applied;
+    [ws_new]: the double blank of statement 1 became single. *)
+Definition ws_s  : bytes := [39; 97; 32; 32; 98; 39]%N.   (* 'a  b' *)
+Definition ws_s' : bytes := [39; 97; 32; 98; 39]%N.        (* 'a b'  *)
+Definition ws_old : list bytes := [ws_s; [88%N]; [89%N]].
+Definition ws_rev : rev bytes := mkRev [50%N] 2 3 (firstn 2 (sums bytes ex_HS ws_old)) true 2%N.
+Definition name_plain : bytes := [50; 46; 115; 113; 108]%N.                   (* "2.sql" *)
+Definition name_long  : bytes := [50; 95; 97; 95; 95; 104; 49; 58; 46; 115; 113; 108]%N.  (* "2_a__h1:.sql" *)
+
+Example C12_whitespace_edit_refused_nonvacuous :
+  whitespace_edit ws_s ws_s' /\
+  recorded bytes ex_HS ws_rev ws_old /\
+  fst (fst (fst (execute_st bytes bytes_eqb ex_HS (mkFile [50%N] [ws_s'; [88%N]; [89%N]] false) [ws_rev] []))) = SExec (OHistory 1) /\
+  (* the same re-spacing in the tail resumes *)
+  fst (fst (fst (execute_st bytes bytes_eqb ex_HS (mkFile [50%N] [ws_s; [88%N]; ws_s'] false) [ws_rev] []))) = SExec ODone.
+Proof. vm_compute. repeat split; auto; discriminate. Qed.
+
+Example C12_name_shapes_nonvacuous :
+  version_of_name name_plain = [50%N] /\ desc_of_name name_plain = [] /\
+  version_of_name name_long = [50%N] /\ desc_of_name name_long = [97; 95; 95; 104; 49; 58]%N /\
+  (* a name without the suffix, and "x.sql.sql": only one suffix is cut *)
+  version_of_name [55; 46; 115; 113; 108; 46; 115; 113; 108]%N = [55; 46; 115; 113; 108]%N.
+Proof. vm_compute. repeat split; reflexivity. Qed.
+
+Example C12_named_refuse_nonvacuous :
+  version_of_name name_plain = version_of_name name_long /\
+  fst (fst (fst (execute_st bytes bytes_eqb ex_HS (file_of (mkNFile name_plain [ws_s'; [88%N]; [89%N]] false)) [ws_rev] []))) = SExec (OHistory 1) /\
+  fst (fst (fst (execute_st bytes bytes_eqb ex_HS (file_of (mkNFile name_long [ws_s'; [88%N]; [89%N]] false)) [ws_rev] []))) = SExec (OHistory 1).
+Proof. vm_compute. repeat split; reflexivity. Qed.
+
+Example C12_partial_hash_chain_nonvacuous :
+  sums bytes ex_HS [[65%N]; [66%N; 59%N]; [67%N]] = [[65%N]; [65%N; 66%N; 59%N]; [65%N; 66%N; 59%N; 67%N]].
+Proof. vm_compute. reflexivity. Qed.
+
+Example C12_h1_prefix_nonvacuous :
+  stored_hash [65%N] = [104; 49; 58; 65]%N /\
+  sum_eqb_stored [65%N] (stored_hash [65%N]) = true /\ sum_eqb_stored [65%N] (stored_hash [66%N]) = false /\
+  (* a stored text without the prefix (written by an older version) is compared as it is *)
+  sum_eqb_stored [65%N] [65%N] = true.
+Proof. vm_compute. repeat split; reflexivity. Qed.
+
+Example C12_completed_file_edit_not_detected_nonvacuous :
+  cli_apply bytes bytes_eqb ex_HS false (PendingModel.mkCfg PendingModel.Linear None true true) 0
+    [mkFile [50%N] [[90%N]; [91%N]] false] [mkRev [50%N] 3 3 [] false 2%N] [] =
+  (CPend PendingModel.PNoPending, [mkRev [50%N] 3 3 [] false 2%N], [], [], []).
+Proof. vm_compute. reflexivity. Qed.
+
+(** the table after one real attempt on [ws_old] (fails at its 3rd statement), then statement 2 "X" -> "X " *)
+Example C12_whitespace_edit_refused_end_to_end_nonvacuous :
+  exists t r,
+    file_history bytes bytes_eqb ex_HS (mkFile [50%N] ws_old false) t /\
+    tbl_get t [50%N] = Some r /\ r_applied r = 2 /\ r_total r = 3 /\
+    whitespace_edit [88%N] [88%N; 32%N] /\
+    fst (fst (fst (execute_st bytes bytes_eqb ex_HS (mkFile [50%N] [ws_s; [88%N; 32%N]; [89%N]] false) t []))) = SExec (OHistory 2).
+Proof.
+  eexists _, _. split.
+  - eapply (FH_attempt bytes bytes_eqb ex_HS (mkFile [50%N] ws_old false) [] [false; false; false; false; false; false; true]).
+    + apply FH_first. reflexivity.
+    + intros r H. discriminate.
+    + vm_compute. reflexivity.
+  - vm_compute. repeat split; auto; discriminate.
+Qed.
